@@ -463,6 +463,12 @@ def write_flow(ctx, syn_mod, shelly_members, has_escape=True,
            if param_of(e.recv(), 'self') and _e_under_type(F, e, 'jbos')]
     def accumulated(c):
         p = getattr(c, '_parent', None)
+        while isinstance(p, (ast.ListComp, ast.GeneratorExp,
+                             ast.comprehension)):
+            p = getattr(p, '_parent', None)
+        if isinstance(p, ast.Call) and Q.callee_attr(p) == 'reduce' and \
+                p.args and unparse(p.args[0]).endswith('or_'):
+            return True
         return isinstance(p, ast.AugAssign) and isinstance(
             p.op, ast.BitOr) or isinstance(p, ast.BinOp) and isinstance(
                 p.op, ast.BitOr) or isinstance(p, ast.BoolOp) and isinstance(
